@@ -197,19 +197,17 @@ class remove_op(base_op_state):
 
 
 class replace_op(base_op_state):
-    __slots__ = ("force_old", "old_choices", "old_pkg")
+    __slots__ = ("old_choices", "old_pkg")
     desc = "replace"
 
     def __init__(self, *args, **kwds):
         base_op_state.__init__(self, *args, **kwds)
         self.old_pkg, self.old_choices = None, None
-        self.force_old = False
 
     def apply(self, plan):
         revert_point = plan.current_state
         old = plan.state.get_conflicting_slot(self.pkg)
         # probably should just convert to an add...
-        force_old = bool(plan.state.check_limiters(old))
         assert old is not None
         plan.state.remove_slotting(old)
         old_choices = plan.pkg_choices[old]
@@ -227,7 +225,6 @@ class replace_op(base_op_state):
         # wipe olds blockers.
 
         self.old_pkg = old
-        self.force_old = force_old
         self.old_choices = old_choices
         del plan.pkg_choices[old]
         plan.pkg_choices[self.pkg] = self.choices
@@ -238,12 +235,10 @@ class replace_op(base_op_state):
         # far simpler, since the apply op generates multiple ops on its own.
         # all we have to care about is swap.
         plan.state.remove_slotting(self.pkg)
-        l = plan.state.fill_slotting(self.old_pkg, force=self.force_old)
-        if bool(l) != self.force_old:
-            raise AssertionError(
-                f"Internal error detected, unable to revert {self}; got {l}, "
-                f"force_old={self.force_old} "
-            )
+        # the old package was slotted when this op was applied; whether that took
+        # force cannot be told from the limiters seen at apply time (its own
+        # blockers are only re-added by the reverts that follow this one).
+        plan.state.fill_slotting(self.old_pkg, force=True)
         del plan.pkg_choices[self.pkg]
         plan.pkg_choices[self.old_pkg] = self.old_choices
         plan.vdb_filter.remove(self.old_pkg)
